@@ -103,6 +103,28 @@ def _run_shard(prop_id, tier, seed, spec, scratch):
             "wall_s": round(wall, 2)}
 
 
+def _nonint(mode, scratch):
+    """Battery of evaluate() calls with all monitors on / off in a fresh
+    interpreter; returns the parsed NONINT line."""
+    try:
+        r = subprocess.run([PY, "-m", "vlib.nonint", mode], cwd=scratch,
+                           env=_worker_env(), capture_output=True, text=True,
+                           timeout=900)
+    except subprocess.TimeoutExpired:
+        return {"error": "timeout"}
+    out = {}
+    for line in r.stdout.splitlines():
+        if line.startswith("NONINT "):
+            for tok in line.split()[1:]:
+                k, _, v = tok.partition("=")
+                out[k] = v
+        if line.startswith("FIDELITY-PROBLEMS"):
+            out["fidelity_problems"] = line[:300]
+    if not out:
+        out = {"error": (r.stderr or r.stdout)[-300:]}
+    return out
+
+
 def merge(summaries):
     m = {"evaluations": 0, "nt": set(), "nt_disjoint": 0, "counters": {},
          "hists": {}, "samples": [], "violations": {}, "inconclusive": [],
@@ -195,10 +217,22 @@ def _main(prop_id, tier, seed, jobs, replay, scratch, t0):
         s.setdefault("timeout", 1500 if tier == "quick" else 7200)
 
     with concurrent.futures.ThreadPoolExecutor(max_workers=jobs) as ex:
+        ni = [ex.submit(_nonint, mode, scratch) for mode in ("on", "off")] \
+            if replay is None else []
         futs = [ex.submit(_run_shard, prop_id, tier, seed, s, scratch)
                 for s in specs]
         summaries = [f.result() for f in futs]
+        ni = [f.result() for f in ni]
     m = merge(summaries)
+    nonint = None
+    if ni:
+        nonint = {"on": ni[0], "off": ni[1],
+                  "identical": bool(ni[0].get("digest")) and
+                  ni[0].get("digest") == ni[1].get("digest")}
+        if not nonint["identical"]:
+            m["inconclusive"].append(
+                "non-interference self-check failed: evaluate() battery differs with "
+                "monitors on/off (%r vs %r)" % (ni[0], ni[1]))
 
     if hasattr(prop, "finalize") and replay is None:
         prop.finalize(m, tier)
@@ -208,7 +242,8 @@ def _main(prop_id, tier, seed, jobs, replay, scratch, t0):
     for key, v in sorted(m["violations"].items()):
         (listed if key in open_known else new).append(v)
     out_lines = []
-    rdir = os.path.join(env.VERIF_DIR, "replays", prop_id)
+    out_root = os.environ.get("VERIF_OUT") or env.VERIF_DIR
+    rdir = os.path.join(out_root, "replays", prop_id)
     for k in open_known.values():
         v = m["violations"].get(k["key"])
         n = v["count"] if v else 0
@@ -261,6 +296,7 @@ def _main(prop_id, tier, seed, jobs, replay, scratch, t0):
                  "count": v["count"], "what": v["what"]} for v in new],
             "inconclusive": inconclusive,
             "notes": m["notes"][:40],
+            "noninterference": nonint,
             "repo": env.repo_dir(),
             "modules_compiled": nmods,
         }
@@ -274,7 +310,7 @@ def _main(prop_id, tier, seed, jobs, replay, scratch, t0):
             "wall_s": wall,
             "violations": len(new),
         }
-        epath = os.path.join(env.VERIF_DIR, "evidence", prop_id + ".json")
+        epath = os.path.join(out_root, "evidence", prop_id + ".json")
         os.makedirs(os.path.dirname(epath), exist_ok=True)
         ev = to_jsonable(ev)
         _validate_evidence(ev, inconclusive)
